@@ -152,3 +152,40 @@ def run(prog, R, vm='mbuff', helpers=None, stack_usage=None, max_steps=3_000_000
             ra, saved, sz, ent = frames.pop()
             regs[6:10] = saved; regs[10] = (regs[10] + sz) & M64; npc = ra; cur_entry = ent
         pc = npc
+
+
+def wf(prog):
+    """C06's statement, concretely: (True, None) or (False, reason)"""
+    if len(prog) == 0 or len(prog) % 8: return False, 'length not a non-zero multiple of 8'
+    n = len(prog) // 8
+    if n > 1000000: return False, 'more than 1,000,000 instructions'
+    opc_at = lambda j: prog[8 * j]
+    starts = set(); i = 0
+    while i < n:
+        starts.add(i); i += 2 if prog[8 * i] == 0x18 else 1
+    i = 0; last = None
+    while i < n:
+        b = prog[8 * i:8 * i + 8]; opc = b[0]; dst = b[1] & 15; src = b[1] >> 4
+        off = sx(int.from_bytes(b[2:4], 'little'), 16); imm = sx(int.from_bytes(b[4:8], 'little'), 32)
+        c = spec.classify(opc)
+        if c is None: return False, f'unsupported opcode {opc:#x} at {i}'
+        k, inf = c
+        if k == 'tail_call': return False, f'tail call at {i}'
+        if src > 10: return False, f'source register at {i}'
+        store_cls = (opc & 7) in (spec.CLS_ST, spec.CLS_STX)
+        if not (dst <= 9 or (dst == 10 and store_cls)): return False, f'destination register at {i}'
+        def lands(t): return 0 <= t < n and prog[8 * t] != 0
+        if k == 'lddw':
+            if not (i + 1 < n and prog[8 * (i + 1)] == 0): return False, f'incomplete wide load at {i}'
+        if k in ('ja', 'jcond'):
+            if off == -1: return False, f'jump to itself at {i}'
+            if not lands(i + 1 + off): return False, f'jump target of {i}'
+        if k == 'call':
+            if src not in (0, 1): return False, f'call kind at {i}'
+            if src == 1 and not lands(i + 1 + imm): return False, f'call target of {i}'
+        if k == 'endian' and imm not in (16, 32, 64): return False, f'byte-swap width at {i}'
+        if k == 'xadd' and imm != 0: return False, f'atomic op at {i}'
+        last = (i, k)
+        i += 2 if k == 'lddw' else 1
+    if last[1] not in ('exit', 'ja'): return False, 'last instruction is neither exit nor an unconditional jump'
+    return True, None
